@@ -45,9 +45,9 @@ func numerals(maxDigits int) []string {
 }
 
 func runC13(w *mc.Worker) {
-	nd, pd, qd := 2, 3, 2
+	nd, pd, qd := 3, 3, 2
 	if w.Tier == "thorough" {
-		nd, pd, qd = 3, 3, 3
+		nd, pd, qd = 3, 3, 4
 	}
 	one := big.NewRat(1, 1)
 	varScript, ok := mustParse(w, "vars { portion $p monetary $t }\nsend $t ( source = @world destination = { $p to @a remaining to @b } )\nset_account_meta ( @acc , \"k\" , $p )\nset_tx_meta ( \"k\" , $p )\nsend $t ( source = @world destination = { $p to @c remaining to @d } )\n")
@@ -111,7 +111,8 @@ func runC13(w *mc.Worker) {
 			}
 		}
 		// route 1: literal
-		src := "send [COIN " + T.String() + "] ( source = @world destination = { " + text + " to @a remaining to @b } )\n"
+		// (the total enters through a variable: number literals beyond 64 bits do not parse)
+		src := "vars { monetary $t } send $t ( source = @world destination = { " + text + " to @a remaining to @b } )\n"
 		var pr parsedT
 		pmsg, where := guard(func() { pr = numscriptParse(src) })
 		if pmsg != "" {
@@ -121,7 +122,7 @@ func runC13(w *mc.Worker) {
 			w.Eval("literal|"+text, nt, "literal:parse-error")
 			w.Violation("C13.rejected:literal:parse", "a script containing a portion literal of the grammar did not parse", len(text), Case{Script: src, Observed: pr.GetParsingErrors()[0].Msg})
 		} else {
-			judgeCredit("literal", RunReal(pr, nil, env.New(env.Exact, nil, nil), nil))
+			judgeCredit("literal", RunReal(pr, map[string]string{"t": "COIN " + T.String()}, env.New(env.Exact, nil, nil), nil))
 		}
 		// route 2: variable
 		judgeCredit("variable", RunReal(varScript, map[string]string{"p": text, "t": "COIN " + T.String()}, env.New(env.Exact, nil, nil), nil))
@@ -187,6 +188,31 @@ func runC13(w *mc.Worker) {
 				n := nums[in.Choose(len(nums))]
 				sp := []string{"/", " /", "/ ", " / "}[in.Choose(4)]
 				check(n+sp+d, T, sp)
+			})
+		})
+	})
+	// numerals at the machine-word boundaries (19 and 20 characters, with and without leading zeros)
+	w.Stage("word-boundary-ratios", "all n/d over 14 numerals around 2^31, 2^32, 10^18, 2^63, 2^64 and 10^19 (19- and 20-character numerals, leading zeros) and their halves, value in [0,1], three routes", func() {
+		p2 := func(k uint) *big.Int { return new(big.Int).Lsh(big.NewInt(1), k) }
+		add := func(a *big.Int, d int64) string { return new(big.Int).Add(a, big.NewInt(d)).String() }
+		e18 := new(big.Int).Exp(big.NewInt(10), big.NewInt(18), nil)
+		ws := []string{add(p2(31), 0), add(p2(32), 0), e18.String(), add(p2(63), -1), add(p2(63), 0), add(p2(63), 1), "9500000000000000000", "9999999999999999999",
+			add(p2(64), -1), add(p2(64), 0), add(p2(64), 1), "0" + add(p2(63), 0), "0000000000" + add(p2(63), 2), "4750000000000000000"}
+		w.Outer("word-boundary-ratios/text", 0, func(o *mc.Explorer) {
+			d := ws[o.Choose(len(ws))]
+			if !w.Mine("wd" + d) {
+				return
+			}
+			w.Owned()
+			dv, _ := new(big.Int).SetString(d, 10)
+			T := new(big.Int).Mul(dv, big.NewInt(1000))
+			w.Inner(0, func(in *mc.Explorer) {
+				alts := append([]string{"1", new(big.Int).Rsh(dv, 1).String(), add(dv, -1), "0" + new(big.Int).Rsh(dv, 1).String()}, ws...)
+				n := alts[in.Choose(len(alts))]
+				if nv, _ := new(big.Int).SetString(n, 10); nv.Cmp(dv) > 0 {
+					return
+				}
+				check(n+"/"+d, T, "/")
 			})
 		})
 	})
